@@ -68,6 +68,22 @@ func (in *Interp) globalCell(g *ssa.Global) *Cell {
 	elem := g.Type().(*types.Pointer).Elem()
 	c := in.newCell(elem)
 	in.globals[g] = c
+	if g.Pkg != nil && !in.allowInit(g.Pkg) {
+		// package whose init is not interpreted: only known globals may be read
+		path := g.Pkg.Pkg.Path()
+		switch {
+		case path == "os" && (g.Name() == "ErrInvalid" || g.Name() == "ErrPermission" || g.Name() == "ErrExist" || g.Name() == "ErrNotExist" || g.Name() == "ErrClosed"):
+			// os.ErrX = fs.ErrX
+			if fsp := in.P.pkgs["io/fs"]; fsp != nil {
+				if fg, ok := fsp.Members[g.Name()].(*ssa.Global); ok {
+					in.store(c, in.load(in.globalCell(fg)))
+				}
+			}
+		case in.zeroValueGlobalOK(elem):
+		default:
+			panic(abortf("UNMODELLED", "read of global %s.%s whose package init is not interpreted", path, g.Name()))
+		}
+	}
 	return c
 }
 
@@ -521,4 +537,25 @@ func (in *Interp) loadPtr(th *Thread, p Ptrv) (Value, bool) {
 		return BVv{in.ts.Select(p.Bobj.arr, p.Idx)}, true
 	}
 	return in.load(p.Cell), true
+}
+
+// zeroValueGlobalOK: globals that are meaningful at their zero value
+// (empty structs such as binary.BigEndian, sync primitives, counters).
+func (in *Interp) zeroValueGlobalOK(t types.Type) bool {
+	switch u := t.Underlying().(type) {
+	case *types.Struct:
+		if u.NumFields() == 0 {
+			return true
+		}
+		if n, ok := t.(*types.Named); ok && n.Obj().Pkg() != nil {
+			switch n.Obj().Pkg().Path() {
+			case "sync", "sync/atomic":
+				return true
+			}
+		}
+	case *types.Basic:
+		// init guards and plain counters
+		return u.Kind() == types.Bool
+	}
+	return false
 }
